@@ -95,6 +95,18 @@ def run(tier, seed, replay=None):
                          "opts": {"max_width": w, "tab_spaces": ts,
                                   "style_edition": universe.STYLE_EDITIONS[hn % 3]},
                          "want": [], "_pid": f"{name}@w={w},ts={ts}:page"})
+    # every sequence of 1..3 line ends drawn from LF, CR LF, CR CR LF and a lone CR, between a
+    # comment, two items and inside a block
+    import itertools as _it
+    pieces = ["\n", "\r\n", "\r\r\n", "\r"]
+    k = 0
+    for n in (1, 2, 3):
+        for seq in _it.product(pieces, repeat=n):
+            t = "".join(seq)
+            text = f"// c\n{t}fn a(){{}}\n{t}fn b() {{\n    let x = 1;{t}    let y = 2;\n}}\n"
+            jobs.append({"id": len(jobs), "src": text, "opts": {"max_width": 100}, "want": [],
+                         "_pid": f"gen/lineends{k}"})
+            k += 1
     for i, text in enumerate(NON_ASCII):
         for d in dk:
             for w in (20, 40, 100):
